@@ -74,8 +74,28 @@ func independentCopy(g *genetics.Genome, id int) *genetics.Genome {
 }
 
 func c05Mutation(c *Ctx, f *Family, r *rand.Rand) {
-	op := c05Mutators[r.Intn(len(c05Mutators))]
 	src := f.pickMember(r)
+	g := independentCopy(src, f.newId())
+	// a chain of 1-4 mutations applied in place to the same genome object (arbitrary operator histories): each step is
+	// monitored on its own
+	steps := 1
+	if r.Intn(3) == 0 {
+		steps = 2 + r.Intn(3)
+		c.Count("chains.in_place", 1)
+	}
+	for k := 0; k < steps && !c.Violated(); k++ {
+		if !c05Step(c, f, r, g, src) {
+			return
+		}
+	}
+	if len(g.Genes) > 0 {
+		f.add(g, r)
+	}
+}
+
+// c05Step applies one monitored mutation to g in place; src is the member g was copied from (siblings are copies of it)
+func c05Step(c *Ctx, f *Family, r *rand.Rand, g, src *genetics.Genome) bool {
+	op := c05Mutators[r.Intn(len(c05Mutators))]
 	// record state: empty / matching / as left by the history
 	mode := r.Intn(3)
 	switch mode {
@@ -83,11 +103,10 @@ func c05Mutation(c *Ctx, f *Family, r *rand.Rand) {
 		f.Pop.VerifClearInnovations()
 	case 1:
 		// apply the same kind of mutation to a sibling first so that the record may match
-		sib := independentCopy(src, f.newId())
+		sib := independentCopy(g, f.newId())
 		_, _ = f.applyMutation(op, sib, r)
 	}
 	recBefore := len(f.Pop.VerifState().Innovations)
-	g := independentCopy(src, f.newId())
 	before := snapGenome(g)
 	ok, err := f.applyMutation(op, g, r)
 	c.Eval(1)
@@ -99,11 +118,11 @@ func c05Mutation(c *Ctx, f *Family, r *rand.Rand) {
 	}
 	if err != nil {
 		c.Violate("mutator-error", detail(), "%s failed on a well-formed genome: %v", name, err)
-		return
+		return false
 	}
 	if after.Broken != "" {
 		c.Violate("genome-broken", detail(), "%s left a broken genome: %s", name, after.Broken)
-		return
+		return false
 	}
 	if ok {
 		c.Count(name+".true", 1)
@@ -113,7 +132,7 @@ func c05Mutation(c *Ctx, f *Family, r *rand.Rand) {
 	kind, msg := c05Oracle(c, op, ok, before, after, recBefore, recAfter)
 	if kind != "" {
 		c.Violate(kind, detail(), "%s (result %v): %s", name, ok, msg)
-		return
+		return false
 	}
 	if ok && before.fingerprint() != after.fingerprint() {
 		h := newHasher()
@@ -125,9 +144,7 @@ func c05Mutation(c *Ctx, f *Family, r *rand.Rand) {
 			c.Sample(map[string]interface{}{"mutator": name, "before": before.brief(), "after": after.brief()})
 		}
 	}
-	if ok && len(g.Genes) > 0 {
-		f.add(g, r)
-	}
+	return true
 }
 
 // structure compares what non-structural mutators must never change
